@@ -445,6 +445,9 @@ func (fc *FuncCtx) bindOf(t types.Type) string {
 			}
 		}
 		if nm, ok := types.Unalias(p.Elem()).(*types.Named); ok {
+			if b, ok := fc.binds["*"+pkgQual(nm)]; ok {
+				return b
+			}
 			if b, ok := fc.binds["*"+nm.Obj().Name()]; ok {
 				return b
 			}
